@@ -309,7 +309,7 @@ func wBuildWorld(s *wSchedule, stage string, bulkGoal int) (*wWorld, error) {
 	seed, _ := strconv.ParseInt(os.Getenv("VERIF_SEED"), 10, 64)
 	rng := rand.New(rand.NewSource(seed*1000003 + int64(s.Sid)*7919 + 17))
 	w.conc.Seed = seed
-	w.conc.SameHosts = (int64(s.Sid)+seed)%3 == 1
+	w.conc.SameHosts = (int64(s.Sid)+seed)%3 == 1 || s.Regime == "udpslow"
 	w.conc.BulkGoal = bulkGoal
 	w.conc.BulkN = []int{}
 	w.conc.Cls, w.conc.ISN, w.conc.Wrap = []int{}, [][2]int{}, []bool{}
